@@ -630,7 +630,7 @@ func decodeCost(r *row) time.Duration {
 // ---------------------------------------------------------------------------------------------
 
 func TestCheck(t *testing.T) {
-	engine.Rule("registry of serialisable types (one row per type, values from generators over the element alphabets and from round-by-round protocol executions with fixed randomness); per row and value: encode/decode/re-encode determinism; EVERY single mutation of the value's CBOR tree from the operator table in mutate_test.go at EVERY node (homogeneous arrays longer than 8 at indices {0,1,mid,last-1,last} in quick, longer than 32 in thorough); EVERY byte string of length <= 2 into every decoder (length 3 into the 20 cheapest decoders in thorough). A case is distinct by (row, value, node path, operator); non-trivial = the decoder was called and its answer judged.")
+	engine.Rule("registry of serialisable types (one row per type, values from generators over the element alphabets and from round-by-round protocol executions with fixed randomness); per row and value: encode/decode/re-encode determinism; EVERY single mutation of the value's CBOR tree from the operator table in mutate_test.go at EVERY node (homogeneous arrays longer than 8 at indices {0,1,mid,last-1,last} in quick, longer than 32 in thorough); EVERY byte string of length <= 2 into every decoder (length 3 into the 20 cheapest decoders that have an UnmarshalCBOR method, in thorough); a fixed list of 216 short tagged inputs (every registered / foreign / self-described tag around null, undefined, {}, [], h'', \"\", 0, false) into every decoder. A case is distinct by (row, value, node path, operator); non-trivial = the decoder was called and its answer judged.")
 	engine.Assume(
 		"verifmc/ref/cbor parses and re-encodes CBOR losslessly (asserted per value: Encode(Parse(b)) == b)",
 		"a top-level CBOR null/undefined decoded into a pointer type yields a nil pointer without error: counted as 'nil', not as an accepted object",
@@ -675,9 +675,13 @@ func TestCheck(t *testing.T) {
 			r *row
 			c time.Duration
 		}
+		// candidates: rows that decode through an UnmarshalCBOR method of the library (plain structs only exercise the
+		// CBOR library's own struct decoder)
 		var cs []rc
 		for _, r := range rows {
-			cs = append(cs, rc{r, decodeCost(r)})
+			if r.covers != "" {
+				cs = append(cs, rc{r, decodeCost(r)})
+			}
 		}
 		sort.SliceStable(cs, func(i, j int) bool { return cs[i].c < cs[j].c })
 		var cheap []*row
@@ -690,7 +694,7 @@ func TestCheck(t *testing.T) {
 		st3 := newStats()
 		sec3 := engine.Explore(shortBody(st3, cheap, 3), engine.Opts{Name: "short/len=3", Budget: 25 * time.Minute, MaxFails: 100000})
 		sort.Strings(names)
-		sec3.Note("the 20 cheapest decoders (measured): %s", strings.Join(names, ", "))
+		sec3.Note("the 20 cheapest decoders with an UnmarshalCBOR method (measured): %s", strings.Join(names, ", "))
 		st3.note(sec3)
 	}
 }
